@@ -280,7 +280,9 @@ fn tiny_kt_case(rng: &mut Rng) -> (String, String) {
     s.push_str(&format!(" list {}", n));
     let mut cur = 0.0;
     for _ in 0..n {
-        cur += match rng.below(5) { 0 => 0.0, 1 => kt * rng.unit(), _ => -kt * rng.unit() };
+        // differences between kT and kT / 256: comparable with the temperature of every loop of the run
+        let d = kt * rng.unit() * 0.5f64.powi(rng.below(9) as i32);
+        cur += match rng.below(5) { 0 => 0.0, 1 => d, _ => -d };
         s.push_str(&format!(" {}", fhex(cur)));
     }
     (cfg, s)
@@ -622,10 +624,32 @@ fn c12(s: &mut Search, rng: &mut Rng) {
             7 => "circle".to_string(),
             _ => crate::gen::gen_trimer(rng, "trimer"),
         };
-        let (a, b) = gen_pair_placements(rng);
+        let (mut a, mut b) = gen_pair_placements(rng);
+        let mut cls = sh.split(' ').next().unwrap_or("").to_string();
+        if sh.starts_with("poly ") && rng.chance(1, 5) {
+            // two regular polygons face to face (parallel edges a tiny gap apart), one of them turned by
+            // a tiny angle: whether they overlap is decided by that turn (depth ~ 1e-7 .. 1e-6, far above
+            // the 1e-9 tolerance)
+            let n: f64 = sh[5..].parse::<f64>().unwrap_or(4.0);
+            let pi = std::f64::consts::PI;
+            let phi = pi / n;
+            let gap = *rng.pick(&[1e-8, 3e-8, -1e-8, 1e-7]);
+            let dist = 2.0 * phi.cos() + gap;
+            let turn = *rng.pick(&[1e-6, -1e-6, 5e-7, -3e-7, 1e-7]);
+            let place = |ang: f64, x: f64, y: f64| -> [f64; 9] {
+                let (sn, cs) = ang.sin_cos();
+                [cs, -sn, x, sn, cs, y, 0.0, 0.0, 1.0]
+            };
+            // nalgebra rotates counter-clockwise: the edge normal at angle phi from +y towards +x of the
+            // unturned polygon points along (sin phi, cos phi)
+            let (x0, y0) = (rng.range(-1.0, 1.0), rng.range(-1.0, 1.0));
+            a = place(if rng.chance(1, 2) { turn } else { 0.0 }, x0, y0);
+            b = place(pi + if rng.chance(1, 2) { turn } else { 0.0 }, x0 + dist * phi.sin(), y0 + dist * phi.cos());
+            cls = "poly-face-to-face-tiny-turn".to_string();
+        }
         let m = crate::gen::gen_placement(rng, 3.0);
         let req = format!("oracle c12_pair {} {} {} {}", sh, crate::gen::mat9(a), crate::gen::mat9(b), crate::gen::mat9(m));
-        s.class(sh.split(' ').next().unwrap_or(""));
+        s.class(&cls);
         s.run("Sat.exact", &req, "c12_pair", "the overlap test disagrees with exact geometry", true);
     }
 }
@@ -686,10 +710,14 @@ fn gen_hard_state_adversarial(rng: &mut Rng) -> String {
     let a0 = rng.range(2.0, 4.5);
     let length = (nn * a0 * rng.range(0.8, 2.5) / (ratio * angle.sin())).sqrt();
     let th = match rng.below(5) { 0 => 0.0, 1 => 2.0 * pi, 2 => *rng.pick(&[pi / 4.0, pi / 2.0, pi, pi / 3.0, pi / 6.0]), _ => rng.range(0.0, 2.0 * pi) };
+    // a site written in another cell (x + k, y + l): a legal description of the same crystal in a state
+    // read back from JSON
+    let shift = |rng: &mut Rng| if rng.chance(1, 8) { (rng.below(13) as f64) - 6.0 } else { 0.0 };
+    let (kx, ky) = (shift(rng), shift(rng));
     format!(
         "hard {} {} {} {} {} 1 {} {} {}",
         shape, g, fhex(length), fhex(ratio), fhex(angle),
-        fhex(crate::gen::gen_site_coord(rng)), fhex(crate::gen::gen_site_coord(rng)), fhex(th)
+        fhex(crate::gen::gen_site_coord(rng) + kx), fhex(crate::gen::gen_site_coord(rng) + ky), fhex(th)
     )
 }
 
